@@ -609,13 +609,14 @@ func (g *GlobalInstance) initialize(importedGlobals []*GlobalInstance, expr *Con
 
 // String implements api.Global.
 func (g *GlobalInstance) String() string {
+	val, _ := g.Value() // g.Val is not updated when the engine owns the value.
 	switch g.Type.ValType {
 	case ValueTypeI32, ValueTypeI64:
-		return fmt.Sprintf("global(%d)", g.Val)
+		return fmt.Sprintf("global(%d)", val)
 	case ValueTypeF32:
-		return fmt.Sprintf("global(%f)", api.DecodeF32(g.Val))
+		return fmt.Sprintf("global(%f)", api.DecodeF32(val))
 	case ValueTypeF64:
-		return fmt.Sprintf("global(%f)", api.DecodeF64(g.Val))
+		return fmt.Sprintf("global(%f)", api.DecodeF64(val))
 	default:
 		panic(fmt.Errorf("BUG: unknown value type %X", g.Type.ValType))
 	}
